@@ -99,6 +99,9 @@ pub struct RunResult {
     /// freeze runs: the structure the solo thread saw (taken while the writer was suspended)
     pub frozen_dump: Option<CDump>,
     pub trace_sites: Vec<(u16, &'static str, u32, u8)>,
+    /// happens-before tracker: dereferences checked, of which of objects allocated by another
+    /// thread, acquire joins
+    pub hb_stats: (u64, u64, u64),
 }
 
 fn now(s: &Sched) -> u64 {
@@ -359,6 +362,7 @@ pub fn run_program<S: BuildHasher + Default + Send + Sync>(p: &Program, opts: Ru
     if let Some((t, k, _)) = opts.freeze {
         sched.inner.lock().unwrap().freeze_at[t] = Some(k);
     }
+    hooks::hb_start(n);
     let mut verdict = Verdict::Running;
     let mut frozen_dump = None;
     std::thread::scope(|scope| {
@@ -463,6 +467,13 @@ pub fn run_program<S: BuildHasher + Default + Send + Sync>(p: &Program, opts: Ru
         )
     };
     let mut failures = fails.into_inner().unwrap();
+    let mut hb_stats = (0u64, 0u64, 0u64);
+    if let Some(hb) = hooks::hb_finish() {
+        hb_stats = (hb.derefs_checked, hb.cross_thread_derefs, hb.acquire_joins);
+        for v in hb.violations.iter().take(2) {
+            failures.push(format!("C15: {}", v));
+        }
+    }
     // quiescent observations
     let mut final_dump = None;
     let mut final_get = Vec::new();
@@ -527,6 +538,7 @@ pub fn run_program<S: BuildHasher + Default + Send + Sync>(p: &Program, opts: Ru
         statuses,
         frozen_dump,
         trace_sites,
+        hb_stats,
     }
 }
 
@@ -1018,7 +1030,7 @@ pub fn gen_program(rng: &mut SplitMix64, kind: u64) -> Program {
             _ => COp::Get(k),
         }
     };
-    match kind % 10 {
+    match kind % 16 {
         // concurrent increments of one counter (C08)
         8 => {
             p.universe = 2;
@@ -1028,6 +1040,25 @@ pub fn gen_program(rng: &mut SplitMix64, kind: u64) -> Program {
                 let n = 1 + rng.below(3);
                 p.threads.push((0..n).map(|_| if rng.chance(4, 5) { COp::Compute(0, 1) } else { COp::Compute(1, 1) }).collect());
             }
+        }
+        // publication chains (C15): a node appended by one thread, its predecessor unlinked by a
+        // second (remove / compute -> None / retain), reached by a third that shares nothing else
+        // with the first
+        10 => {
+            p.hasher = if rng.chance(3, 4) { H_ZERO } else { H_SAMEBIN };
+            p.cap = [0, 16, 64][rng.below(3) as usize];
+            let pre = 2 + rng.below(3) as u32;
+            p.prefill = (0..pre).collect();
+            p.universe = pre + 2;
+            p.linger = 0;
+            let victim = 1 + rng.below((pre - 1) as u64) as u32;
+            p.threads.push(vec![COp::Insert(pre, { val += 1; val })]);
+            p.threads.push(vec![match rng.below(4) {
+                0 => COp::Remove(victim),
+                1 => COp::Retain(0),
+                _ => COp::Compute(victim, 0),
+            }]);
+            p.threads.push(vec![if rng.chance(1, 2) { COp::Get(pre) } else { COp::Iter }]);
         }
         // a bin at the treeify threshold while others drain it (the race behind finding F5)
         9 => {
@@ -1054,7 +1085,7 @@ pub fn gen_program(rng: &mut SplitMix64, kind: u64) -> Program {
         }
         // operations racing with a resize: fill to one below the threshold
         2 | 3 => {
-            let n: u32 = if kind % 10 == 2 { 16 } else { 64 };
+            let n: u32 = if kind % 16 == 2 { 16 } else { 64 };
             p.cap = (n / 2) as u64; // with_capacity(n/2) -> table of n bins for n = 16, 64
             p.hasher = if rng.chance(1, 2) { H_IDENTITY } else { H_MIX };
             let fill = n - n / 4 - 1;
